@@ -11,7 +11,7 @@ from .. import gen, monitors
 PID = "C01"
 ANCHORS = ["scores.py:Scores.cm", "scores.py:Scores.__init__", "scores.py:pointwise_cm"]
 RAISES_ARE_VIOLATIONS = True
-DECIDING = {"M-cm": 2000, "M-pw": 50, "R-pwsum": 50}
+DECIDING = {"M-cm": 593852, "M-pw": 15286, "R-pwsum": 7643}
 QUICK_EXTRA = ["WX"]
 THOROUGH_EXTRA = ["WX", "W2", "W3"]
 RULE = (
@@ -55,7 +55,9 @@ def cases(ctx):
             thr = [float(x) for x in thr[:5]]
         yield {
             "pos": pos, "neg": neg, "ep": ep, "en": en, "sc": sc, "ec": ec, "thr": thr, "kind": kind,
-            "via": str(rng.choice(["ctor", "from_labels", "swap2", "sorted"])),
+            "via": str(rng.choice(["ctor", "ctor", "from_labels", "swap2", "sorted", "boot_replacement", "boot_smoothing", "boot_single_pass", "boot_proportion",
+                                   "boot_by_label", "group_item", "sample_swap"])),
+            "_seed": int(rng.integers(1 << 31)),
         }
 
 
@@ -101,6 +103,33 @@ def execute(ctx, case):
         s = Scores(pos, neg, **kw)
     if via == "swap2":
         s = s.swap().swap()  # library-made is_sorted=True objects; must be the same object semantically
+    # objects the library derives itself (often with is_sorted=True): the decision-rule counting must hold on them too;
+    # M-cm counts over the arrays each derived object was *constructed from*
+    if via.startswith("boot_") or via == "sample_swap":
+        if len(pos) == 0 or len(neg) == 0:
+            return False
+        np.random.seed(case.get("_seed", 0))
+        cfg = {"boot_replacement": BootstrapConfig(sampling_method="replacement"),
+               "boot_smoothing": BootstrapConfig(sampling_method="dynamic", smoothing=True),
+               "boot_single_pass": BootstrapConfig(sampling_method="single_pass"),
+               "boot_proportion": BootstrapConfig(sampling_method="proportion", ratio=0.6),
+               "boot_by_label": BootstrapConfig(sampling_method="replacement", stratified_sampling="by_label", smoothing=bool(case.get("_seed", 0) % 2)),
+               "sample_swap": BootstrapConfig(sampling_method="replacement", smoothing=bool(case.get("_seed", 0) % 2))}[via]
+        s = s.bootstrap_sample(cfg)
+        if via == "sample_swap":
+            s = s.swap()
+        pos, neg, ep, en = np.asarray(s.pos), np.asarray(s.neg), int(s.nb_easy_pos), int(s.nb_easy_neg)
+        sc, ec = s.score_class.value, s.equal_class.value
+    elif via == "group_item":
+        from score_analysis import GroupScores
+
+        if len(pos) == 0 or len(neg) == 0:
+            return False
+        rs = np.random.default_rng(case.get("_seed", 0))
+        gs = GroupScores(pos, neg, pos_groups=rs.choice(["a", "b"], len(pos)), neg_groups=rs.choice(["a", "b"], len(neg)), score_class=sc, equal_class=ec)
+        g = str(rs.choice(list(gs.groups)))
+        s = gs[g]
+        pos, neg, ep, en = np.asarray(s.pos), np.asarray(s.neg), 0, 0
     if via == "traffic":
         np.random.seed(case["_seed"])
         if len(s.pos) and len(s.neg):
